@@ -311,7 +311,8 @@ def generate_jt(streams, tier):
         elif kind == "remove_factor":
             op.update(i=r.randrange(4))
         ops.append(op)
-    return {"kind": "jt", "universe": u, "pool": pool, "ops": ops}
+    # cliques are "list or set or tuple" by the documentation: some histories name them by frozensets
+    return {"kind": "jt", "universe": u, "pool": pool, "ops": ops, "clique_repr": "frozenset" if r.random() < 0.2 else "tuple"}
 
 
 def generate_mn(streams, tier):
@@ -1135,6 +1136,9 @@ def execute_jt(case, ctx):
     u = case["universe"]
     names = Names({"n": u["n"], "labels": u["labels"], "states": [None] * u["n"], "card": u["card"]})
     pool = [tuple(names.L(x) for x in c) for c in case["pool"]]
+    if case.get("clique_repr") == "frozenset":
+        pool = [frozenset(c) for c in pool]
+        ctx.probe("cliques_named_by_frozensets")
     ctx.fault("relabel")
     live = [JunctionTree()]
     cyclic_seen = set()
